@@ -153,6 +153,52 @@ def gen_uncovered_case(rng, kind, k):
             "edges": edges, "animals": animals, "uncovered_nodes": uncovered}
 
 
+def gen_duplicate_case(rng, kind, k):
+    """Instance lists containing EXACT (bit-identical) copies of a fully labelled animal: adjacent or
+    not, two or three copies.  The model sums over the list, so the field is doubled / tripled."""
+    stride = rng.choice([1, 2, 4])
+    H, W = stride * rng.randrange(4, 12), stride * rng.randrange(4, 12)
+    n_nodes = rng.choice([2, 3, 4])
+    edges = [[i, i + 1] for i in range(n_nodes - 1)]
+    xl, yl = (math.ceil(W / stride) - 1) * stride, (math.ceil(H / stride) - 1) * stride
+
+    def full():
+        return [[lat(rng, 1 / 16, max(xl - 1 / 16, 1 / 16)), lat(rng, 1 / 16, max(yl - 1 / 16, 1 / 16))] for _ in range(n_nodes)]
+    base = full()
+    others = [full() if rng.random() < 0.7 else gen_animal(rng, H, W, stride, n_nodes, "partly") for _ in range(rng.choice([0, 1, 1, 2]))]
+    copies = 3 if k % 4 == 3 else 2
+    animals = list(others)
+    if k % 2 == 0 or not others:          # adjacent copies
+        at = rng.randrange(0, len(animals) + 1)
+        animals[at:at] = [copy.deepcopy(base) for _ in range(copies)]
+    else:                                 # copies separated by other animals
+        animals = [copy.deepcopy(base)] + animals + [copy.deepcopy(base)]
+        if copies == 3:
+            animals.insert(1 + len(others) // 2, copy.deepcopy(base))
+    return {"kind": kind, "H": H, "W": W, "stride": stride, "sigma": rng.choice([0.5, 1.0, 1.5, 2.5]), "n_nodes": n_nodes,
+            "edges": edges, "animals": animals, "duplicates": copies}
+
+
+def gen_band_case(rng, kind):
+    """Non-square frames with a whole animal in the band a transposed bound would cut off:
+    x in (H - stride, xv[-1]) on wide frames, y in (W - stride, yv[-1]) on tall frames."""
+    stride = rng.choice([1, 2, 4])
+    a, b = stride * rng.randrange(3, 7), stride * rng.randrange(9, 16)
+    wide = rng.random() < 0.5
+    H, W = (a, b) if wide else (b, a)
+    xl, yl = (math.ceil(W / stride) - 1) * stride, (math.ceil(H / stride) - 1) * stride
+    n_nodes = rng.choice([2, 3])
+    def node():
+        if wide:
+            return [lat(rng, H - stride + 1 / 16, xl - 1 / 16), lat(rng, 1 / 16, yl - 1 / 16)]
+        return [lat(rng, 1 / 16, xl - 1 / 16), lat(rng, W - stride + 1 / 16, yl - 1 / 16)]
+    animals = [[node() for _ in range(n_nodes)] for _ in range(rng.choice([1, 1, 2]))]
+    if rng.random() < 0.4:
+        animals.append(gen_animal(rng, H, W, stride, n_nodes, "inside"))
+    return {"kind": kind, "H": H, "W": W, "stride": stride, "sigma": rng.choice([1.0, 1.5, 2.5]), "n_nodes": n_nodes,
+            "edges": [[i, i + 1] for i in range(n_nodes - 1)], "animals": animals, "band": "wide" if wide else "tall"}
+
+
 def gen_sigma(rng, lo=0.3, hi=20.0):
     if rng.random() < 0.65:
         return rng.choice([0.5, 1.0, 1.5, 2.5, 5.0])
@@ -749,6 +795,10 @@ def tags_of(case):
         t.append("large_frame")
     if case.get("uncovered_nodes"):
         t.append("skeleton_with_edgeless_node")
+    if case.get("duplicates"):
+        t.append(f"exact_duplicate_animal_x{case['duplicates']}")
+    if case.get("band"):
+        t.append(f"animal_in_transposed_bound_band_{case['band']}")
     cov = {i for e in case["edges"] for i in e}
     for k, a in enumerate(case["animals"]):
         if case["edges"] and any(vis(p) for p in a) and not any(vis(a[i]) for i in cov):
@@ -921,6 +971,16 @@ def main(chk: Check):
         {"kind": "dp", "H": 16, "W": 16, "stride": 4, "sigma": 1.5, "n_nodes": 4, "edges": [[0, 1], [1, 2]], "uncovered_nodes": [3],
          "animals": [[[2.0, 2.0], [6.0, 3.0], [9.0, 9.0], [4.0, 4.0]], [[None, None], [None, None], [None, None], [6.0, 6.0]],
                      [[10.0, 3.0], [5.0, 8.0], [3.0, 10.0], [None, None]]]},
+        # exact duplicates: the field is the SUM over the list (twice / three times one animal's field)
+        {"kind": "pafs", "H": 16, "W": 16, "stride": 2, "sigma": 1.0, "n_nodes": 2, "edges": [[0, 1]], "duplicates": 2,
+         "animals": [[[3.0, 4.0], [10.0, 9.0]], [[3.0, 4.0], [10.0, 9.0]]]},
+        {"kind": "dp_noflat", "H": 16, "W": 16, "stride": 2, "sigma": 1.0, "n_nodes": 2, "edges": [[0, 1]], "duplicates": 3,
+         "animals": [[[3.0, 4.0], [10.0, 9.0]], [[12.0, 3.0], [5.0, 5.0]], [[3.0, 4.0], [10.0, 9.0]], [[3.0, 4.0], [10.0, 9.0]]]},
+        # non-square frames, the animal beyond the other side's length: x > H on a wide frame, y > W on a tall one
+        {"kind": "pafs", "H": 8, "W": 32, "stride": 2, "sigma": 1.5, "n_nodes": 2, "edges": [[0, 1]], "band": "wide",
+         "animals": [[[20.0, 3.0], [27.0, 5.0]]]},
+        {"kind": "dp", "H": 32, "W": 8, "stride": 2, "sigma": 1.5, "n_nodes": 2, "edges": [[0, 1]], "band": "tall",
+         "animals": [[[3.0, 20.0], [5.0, 27.0]]]},
         # long sides (> 4096 cells of a full-resolution axis), an animal beyond x = 4096 / y = 4096
         {"kind": "pafs", "H": 8, "W": 4608, "stride": 4, "sigma": 2.5, "n_nodes": 2, "edges": [[0, 1]], "large": True,
          "animals": [[[4200.0, 4.0], [4400.0, 4.0]], [[100.0, 2.0], [300.0, 6.0]]]},
@@ -941,6 +1001,10 @@ def main(chk: Check):
         cases.append(gen_large_case(rng, ["pafs", "dp", "pafs_noflat", "mpafs"][k % 4]))
     for k in range(chk.n(48, 480)):     # edge-less nodes / animals with no visible edge endpoint, at every list position
         cases.append(gen_uncovered_case(rng, ["pafs", "mpafs", "dp", "pafs_noflat"][k % 4], k // 4))
+    for k in range(chk.n(40, 400)):     # exact duplicates of a fully labelled animal (adjacent / separated, 2 or 3 copies)
+        cases.append(gen_duplicate_case(rng, ["pafs", "pafs_noflat", "dp", "mpafs"][k % 4], k // 4))
+    for k in range(chk.n(30, 300)):     # whole animals in the band x in (H-stride, W) / y in (W-stride, H) of non-square frames
+        cases.append(gen_band_case(rng, ["pafs", "dp", "pafs_noflat"][k % 3]))
     cases += [c2 for c in list(cases) for c2 in stream_rotations(c)]
     # ---- the regions the _partial theorems exclude: sampled on purpose (search, not proof coverage)
     n_ex = chk.n(60, 600)
@@ -1014,7 +1078,8 @@ if __name__ == "__main__":
              "(float32); 0-4 animals x 1-5 nodes on the k/16 lattice in modes inside / integer / wholly outside / partly outside / "
              "last-stride strip and x=0,y=0 lines / sub-pixel edges / coincident nodes, NaN patterns (node, one coordinate, whole "
              "animal); edge lists chain / random / repeated+reversed / self-edge / empty / not covering all nodes (1-2 edge-less "
-             "nodes) with animals of which only the edge-less node(s) are visible at the first / middle / last list position; H,W in 1..36 (50% stride multiples), "
+             "nodes) with animals of which only the edge-less node(s) are visible at the first / middle / last list position; instance lists with 2-3 bit-identical copies of a "
+             "fully labelled animal (adjacent / separated); non-square frames with whole animals in x in (H-stride, W) / y in (W-stride, H); H,W in 1..36 (50% stride multiples), "
              "stride {1,2,4,8}; a large-frame family H,W in 512..4096 with stride 16..64 (grid <= 64 cells a side), long edges, "
              "far-corner animals; sigma {.5,1,1.5,2.5,5} (65%) or log-uniform in [0.3,20] ([0.5,40] on large frames); "
              "distance_to_edge also with coordinates up to 4096; distinct = distinct case; trivial = no animal in the image with "
